@@ -1,0 +1,48 @@
+//go:build verif
+
+package influx
+
+// Contracts for /verif (gvc). Comment-only file; see /verif/DESIGN.md §5 C06.
+
+//@ prop C06
+
+//@ func bytes.LastIndexByte
+//@   extern T-str: -1 or an index holding the byte
+//@   ensures result == -1 || (0 <= result && result < len(s) && s[result] == c)
+//@   ensures -1 <= result
+//@   assigns nothing
+
+// A block handed to the parser ends exactly before a newline and the remainder is kept for the next block:
+// no byte is dropped or duplicated when a request body is cut into blocks.
+//@ func ReadLinesBlockExt
+//@   call append
+//@     requires len(arg0) == 0
+//@     requires (len(dstBuf) > 0 && arg0 == tailBuf[:0] && tailBuf != arg1) ==> (0 <= nn && nn < len(dstBuf) && dstBuf[nn] == 10 && arg1 == dstBuf[nn+1:])
+
+// A rejected line stores nothing; an accepted line adds at most one row.
+//@ func unmarshalRow
+//@   ensures result3 != nil ==> len(result0) == len(dst)
+//@   ensures len(result0) == len(dst) || len(result0) == len(dst) + 1
+//@   ensures (len(s) == 0 || s[0] == 35) ==> (result3 == nil && len(result0) == len(dst))
+
+// Timestamps are digit strings (so the only way to an error-free value is ParseInt64 on digits).
+//@ func nextTimestamp
+//@   call ParseInt64
+//@     requires forall k int :: 0 <= k && k < len(arg0) ==> 48 <= arg0[k] && arg0[k] <= 57
+//@   loop 1
+//@     invariant 0 <= i && i <= len(s) && (forall k int :: 0 <= k && k < i ==> 48 <= s[k] && s[k] <= 57)
+//@     decreases len(s) - i
+
+// Field values: integers keep every digit, booleans their truth value, non-finite floats and
+// the unsigned suffix are rejected.
+//@ func parseFieldNumValue
+//@   ghost n int64 = 0
+//@   call ParseInt64
+//@     set n = ret0
+//@   ensures len(s) == 0 ==> result2 != nil
+//@   ensures len(s) > 0 && s[len(s)-1] == 117 ==> result2 != nil
+//@   ensures result2 == nil && result1 == Field_Type_Int ==> int64(result0) == n
+//@   ensures result2 == nil && result1 == Field_Type_Boolean ==> (result0 == 1 || result0 == 0)
+//@   ensures (s == "t" || s == "T" || s == "true" || s == "True" || s == "TRUE") ==> (result2 == nil && result1 == Field_Type_Boolean && result0 == 1)
+//@   ensures (s == "F" || s == "false" || s == "False" || s == "FALSE") ==> (result2 == nil && result1 == Field_Type_Boolean && result0 == 0)
+//@   ensures result2 == nil && result1 == Field_Type_Float ==> !isNaN(result0) && !isInf(result0)
